@@ -29,6 +29,10 @@ var c07Bodies = [][]string{
 	{"##!> include usesx", "o"},
 	{"{{q}}a", "{{x}}"},
 	{"##!> cmdline unix", "{{x}}", "##!<"},
+	// definitions of an included file are that file's business: a name only the included file defines stays
+	// literal in the including file, and a name both define keeps the including file's value outside the include
+	{"{{w}}a", "##!> include defsw", "b{{w}}"},
+	{"{{x}}t", "##!> include defsx", "{{x}}u", "{{y}}"},
 }
 
 type c07Case struct {
@@ -64,6 +68,10 @@ func (c c07Case) program() (a string, b string) {
 		}
 		if l == "##!> include usesx" {
 			bl = append(bl, "a{{x}}b", "plain")
+			continue
+		}
+		if l == "##!> include defsw" || l == "##!> include defsx" {
+			bl = append(bl, "innerr", "plain")
 			continue
 		}
 		bl = append(bl, l)
@@ -159,6 +167,8 @@ type c07Out struct {
 func c07Tree() core.Tree {
 	t := c01Tree()
 	t["regex-assembly/include/usesx.ra"] = "a{{x}}b\nplain\n"
+	t["regex-assembly/include/defsw.ra"] = "##!> define w inner\n{{w}}r\nplain\n"
+	t["regex-assembly/include/defsx.ra"] = "##!> define x inner\n{{x}}r\nplain\n"
 	return t
 }
 
